@@ -231,6 +231,22 @@ pub fn scan_head_end(input: &[u8], has_start_line: bool, ws_empty_before: Option
     }
 }
 
+/// `n` is the offset just past a line consisting only of SP/HTAB and its line end.
+fn ends_blank_line(input: &[u8], n: u32) -> bool {
+    let n = n as usize;
+    if n == 0 || n > input.len() || input[n - 1] != b'\n' {
+        return false;
+    }
+    let mut i = n - 1;
+    if i > 0 && input[i - 1] == b'\r' {
+        i -= 1;
+    }
+    while i > 0 && (input[i - 1] == b' ' || input[i - 1] == b'\t') {
+        i -= 1;
+    }
+    i == 0 || input[i - 1] == b'\n'
+}
+
 pub struct Checker {
     pub prop: String,
     pub armed: u32,
@@ -376,7 +392,17 @@ impl Checker {
                         None
                     };
                     let scan = scan_head_end(input, has_start, lim);
-                    if scan != Some(n) {
+                    let folding = lane.entry.is_resp() && lane.entry.takes_config() && lane.cfg & C_FOLDING != 0;
+                    let good = if sbf && folding {
+                        // a line starting with SP/HTAB may also be the continuation of a header
+                        // (which the ignore option may later drop): the scan cannot tell, so only
+                        // require that n ends a blank line and that no exactly-empty line precedes it
+                        let exact = scan_head_end(input, has_start, None);
+                        ends_blank_line(input, n) && exact.map_or(true, |e| n <= e)
+                    } else {
+                        scan == Some(n)
+                    };
+                    if !good {
                         self.violation(
                             format!("Complete({}) but the first empty line after the start line ends at {:?}", n, scan),
                             lane, input, describe_obs(o), format!("Complete({:?})", scan), None,
